@@ -46,16 +46,26 @@ I_ALPHA = {
     "long": [0, 1, -1, 2, 3, 7, -8, 63, 64, 2**31 - 1, -2**31, 2**32, 2**63 - 1, -2**63, 2**63 - 2, -2**63 + 1, 0x5555555555555555, -123456789012],
     "short": [0, 1, -1, 2, 3, 7, -8, 15, 16, 255, -256, 32767, -32768, 32766, -32767, 0x5555],
     "char": [0, 1, -1, 2, 3, 7, -8, 8, 64, -64, 127, -128, 126, 97],
+    # further integral widths / signedness (index type std::size_t = unsigned long, long long, unsigned short / char, signed char)
+    "ulong": [0, 1, 2, 3, 7, 63, 64, 2**32, 2**63, 2**63 - 1, 2**64 - 1, 2**64 - 2, 0x5555555555555555, 12345],
+    "llong": [0, 1, -1, 2, 3, 7, -8, 63, 64, 2**32, 2**63 - 1, -2**63, 2**63 - 2, -2**63 + 1, -123456789012],
+    "ushort": [0, 1, 2, 3, 15, 16, 255, 256, 32767, 32768, 65535, 65534, 0x5555],
+    "uchar": [0, 1, 2, 3, 7, 8, 127, 128, 254, 255, 0x55],
+    "schar": [0, 1, -1, 2, 3, 7, -8, 8, 64, -64, 127, -128, 126, 97],
 }
-BITS = {"int": 32, "unsigned": 32, "long": 64, "short": 16, "char": 8}
-MIN = {"int": -2**31, "long": -2**63}
+C_ALPHA = ["%s,%s" % (dbits(re_), dbits(im_)) for re_, im_ in [(0.0, 0.0), (1.0, 0.0), (0.0, 1.0), (-1.0, 0.0), (0.0, -1.0), (1.0, 1.0), (0.5, -2.5), (2.0, 3.0),
+           (INF, 0.0), (0.0, INF), (float("nan"), 0.0), (1.0, float("nan")), (1e308, 1e308), (-0.0, 0.0), (3.0, -4.0), (1e-300, 1e-300)]]
+BITS = {"int": 32, "unsigned": 32, "long": 64, "short": 16, "char": 8, "ulong": 64, "llong": 64, "ushort": 16, "uchar": 8, "schar": 8}
+MIN = {"int": -2**31, "long": -2**63, "llong": -2**63}
 SHIFT_COUNTS = {"int": [0, 1, 2, 7, 16, 31], "unsigned": [0, 1, 2, 7, 16, 31], "long": [0, 1, 2, 31, 32, 63],
-                "short": [0, 1, 2, 7, 15], "char": [0, 1, 2, 7]}
+                "short": [0, 1, 2, 7, 15], "char": [0, 1, 2, 7], "ulong": [0, 1, 2, 31, 32, 63], "llong": [0, 1, 2, 31, 32, 63],
+                "ushort": [0, 1, 2, 7, 15], "uchar": [0, 1, 2, 7], "schar": [0, 1, 2, 7]}
 
 def alpha(T):
     if T in ("double", "adouble"): return D_ALPHA
     if T == "float": return F_ALPHA
     if T == "bool": return ["0", "1"]
+    if T == "cdouble": return C_ALPHA
     return [str(x) for x in I_ALPHA[T]]
 
 def canon(T, tok):
@@ -64,6 +74,8 @@ def canon(T, tok):
         v = int(tok, 16); return "nan" if (v & 0x7ff0000000000000) == 0x7ff0000000000000 and (v & 0xfffffffffffff) else "%016x" % v
     if T == "float":
         v = int(tok, 16); return "nan" if (v & 0x7f800000) == 0x7f800000 and (v & 0x7fffff) else "%08x" % v
+    if T == "cdouble":
+        return ",".join(canon("double", x) for x in tok.split(","))
     return tok
 
 def numeric(T, tok):
@@ -79,7 +91,7 @@ OPS = ["pos", "neg", "bnot", "lnot", "add", "sub", "mul", "div", "mod", "band", 
        "cos", "sin", "tan", "acos", "asin", "atan", "cosh", "sinh", "tanh", "acosh", "asinh", "atanh",
        "exp", "log", "log10", "exp2", "expm1", "log1p", "log2", "logb", "sqrt", "cbrt", "erf", "erfc", "tgamma", "lgamma",
        "ceil", "floor", "trunc", "round", "rint", "nearbyint", "fabs", "abs", "ilogb", "lround", "llround", "lrint", "llrint",
-       "isnan", "isinf", "isfinite"]
+       "isnan", "isinf", "isfinite", "real", "imag"]
 OPID = {n: i + 10 for i, n in enumerate(OPS)}
 OPNAME = {i + 10: n for i, n in enumerate(OPS)}
 UNARY_ARITH = ["pos", "neg", "lnot"]
@@ -87,7 +99,7 @@ BIN_ARITH = ["add", "sub", "mul", "div"]
 BIN_INT = ["mod", "band", "bor", "bxor"]
 CMP = ["lt", "gt", "le", "ge", "eq", "ne"]
 LOGIC = ["land", "lor"]
-MATH = OPS[OPS.index("cos"):OPS.index("isfinite") + 1]
+MATH = OPS[OPS.index("cos"):OPS.index("isfinite") + 1] + ["real", "imag"]
 MATH_NONEST = ["ilogb", "lround", "llround", "lrint", "llrint"]
 
 def valid(T, name, x, y):
@@ -99,6 +111,9 @@ def valid(T, name, x, y):
         if name in ("shl", "shr"):
             if not (0 <= int(y) < BITS[T]): return False
     return True
+
+GROUP1 = ("ulong", "llong", "ushort", "uchar", "schar", "cdouble")
+
 
 def scalar_type(T):
     return "double" if T == "adouble" else T
@@ -129,6 +144,7 @@ class OpGen:
         rng = self.rng
         A = alpha(T)
         isint, isfp, isbool = T in I_ALPHA, T in ("double", "float", "adouble"), T == "bool"
+        iscplx = T == "cdouble"; ordered = not iscplx
         pairs = [(x, y) for x in A for y in A]
         thin = 6 if self.quick else 2
         def binary(name, forms, pr):
@@ -156,7 +172,10 @@ class OpGen:
             for S, ch in self.chunks([(x,) for x in A], Slist, m):
                 self.add(T, S, m, name, form, [p[0] for p in ch])
         nested = m > 1
-        if not isbool:
+        if iscplx:
+            for n in ("pos", "neg", "real", "imag"): unary(n)
+            for n in BIN_ARITH: binary(n, ["vv", "vs", "sv", "avv", "avs"], pairs)
+        if not isbool and ordered:
             for n in UNARY_ARITH: unary(n)
             for n in BIN_ARITH: binary(n, ["vv", "vs", "sv", "avv", "avs"], pairs)
             for n in ("inc", "dec"):
@@ -166,7 +185,7 @@ class OpGen:
             # a few random (non-alphabet-ordered) reductions
             for _ in range(20 if self.quick else 200):
                 S = rng.choice(Slist); self.add(T, S, m, "", rng.choice(["hmax", "hmin"]), [rng.choice(A) for _ in range(S * m)])
-        else:
+        elif isbool:
             unary("lnot")
         if isint:
             unary("bnot")
@@ -175,8 +194,8 @@ class OpGen:
             for n in ("shl", "shr"): binary(n, ["vv", "vs", "avv", "avs"], sp)
         if isbool:
             for n in ("band", "bor", "bxor"): binary(n, ["vv", "vs", "sv", "avv", "avs"], pairs)
-        for n in CMP: binary(n, ["vv", "vs", "sv"], pairs)
-        for n in LOGIC: binary(n, ["vv", "vs"] + ([] if (nested and not getattr(self.ctx, "nested_sv", False)) else ["sv"]), pairs)
+        for n in (CMP if ordered else ["eq", "ne"]): binary(n, ["vv", "vs", "sv"], pairs)
+        for n in (LOGIC if ordered else []): binary(n, ["vv", "vs"] + ([] if (nested and not getattr(self.ctx, "nested_sv", False)) else ["sv"]), pairs)
         if isfp:
             for n in MATH:
                 if nested and n in MATH_NONEST: continue
@@ -204,13 +223,32 @@ class OpGen:
         sv_ok = not (nested and not getattr(self.ctx, "nested_sv", False))
         if not isbool:
             for n in BIN_ARITH: alias(n, ["avsk", "avsl", "vsk", "vsl", "svk"], ["vvself", "avvself"], A)
+        if not isbool and ordered:
+            for n in ("max", "min"): alias(n, [], ["vvself"], A)
         if isint:
             for n in BIN_INT: alias(n, ["avsk", "avsl", "vsk", "vsl", "svk"], ["vvself", "avvself"], A)
             for n in ("shl", "shr"): alias(n, ["avsk", "avsl", "vsk"], ["vvself", "avvself"], [str(c) for c in SHIFT_COUNTS[T]])
         if isbool:
             for n in ("band", "bor", "bxor"): alias(n, ["avsk", "avsl", "vsk", "vsl", "svk"], ["vvself", "avvself"], A)
-        for n in CMP: alias(n, ["vsk", "vsl", "svk"], ["vvself"], A)
-        for n in LOGIC: alias(n, ["vsk", "vsl"] + (["svk"] if sv_ok else []), ["vvself"], A)
+        for n in (CMP if ordered else ["eq", "ne"]): alias(n, ["vsk", "vsl", "svk"], ["vvself"], A)
+        for n in (LOGIC if ordered else []): alias(n, ["vsk", "vsl"] + (["svk"] if sv_ok else []), ["vvself"], A)
+        # ---- SPECIAL MEMBERS / CONVERSIONS / further overloads (dimension audit)
+        plain = (m == 1)
+        for _ in range(4 if self.quick else 30):
+            S = rng.choice(Slist); L = S * m
+            va = [rng.choice(A) for _ in range(L)]; vb = [rng.choice(A) for _ in range(L)]
+            self.add(T, S, m, "", "copy", va)
+            self.add(T, S, m, "", "swap", va + vb)
+            self.add(T, S, m, "", "bcastk:%d" % rng.choice(sorted(set([0, L // 2, L - 1]))), va)
+            self.add(T, S, m, "nzmask", "morself", va); self.add(T, S, m, "nzmask", "mandself", va)
+            if plain:                                       # a second simd type with the same scalar and lane count (other alignment) exists
+                self.add(T, S, m, "", "conv", va)
+                self.add(T, S, m, "", "cond2", [rng.choice("01") for _ in range(L)] + va + vb)
+            if ordered and not isbool and not nested:
+                for n in CMP: self.add(T, S, m, n, "vsi", va + [str(rng.choice([0, 1, 2, 3, 7] if T in ("unsigned", "ulong", "ushort", "uchar") else [0, 1, -1, 2, 3, 7]))])
+            if isint and not nested:
+                ok = [x for x in A if True]
+                for n in ("shl", "shr"): self.add(T, S, m, n, "vsu", va + [str(rng.choice(SHIFT_COUNTS[T]))])
         for _ in range(12 if self.quick else 80):
             S = rng.choice(Slist); L = S * m
             mask = [rng.choice("01") for _ in range(L)]
@@ -275,7 +313,13 @@ class OpEval:
         sT = scalar_type(self.T)
         self.sT = sT
         if f in ("u", "pre", "post", "hmax", "hmin", "lane", "lanes", "icast", "any", "all", "anyf", "allf",
-                 "avsk", "avsl", "vsk", "vsl", "svk", "vvself", "avvself"): self.vec["a"] = v[:L]
+                 "avsk", "avsl", "vsk", "vsl", "svk", "vvself", "avvself", "copy", "conv", "bcastk", "morself", "mandself"): self.vec["a"] = v[:L]
+        elif f == "swap": self.vec["a"], self.vec["b"] = v[:L], v[L:2 * L]
+        elif f == "cond2": self.vec["a"], self.vec["b"], self.vec["c"] = v[:L], v[L:2 * L], v[2 * L:3 * L]
+        elif f == "vsu": self.vec["a"], self.sc["sb"] = v[:L], v[L]
+        elif f == "vsi":
+            k = int(v[L]); self.vec["a"] = v[:L]
+            self.sc["sb"] = dbits(float(k)) if sT == "double" else fbits(float(k)) if sT == "float" else str(k % 2 ** BITS[sT] if sT in ("unsigned", "ulong", "ushort", "uchar") else k)
         elif f in ("condself", "condsame"): self.vec["a"], self.vec["b"], self.vec["c"] = v[:L], v[L:2 * L], v[2 * L:3 * L]
         elif f == "condmask": self.vec["b"], self.vec["c"] = v[:L], v[L:2 * L]
         elif f in ("vv", "avv", "mor", "mand"): self.vec["a"], self.vec["b"] = v[:L], v[L:2 * L]
@@ -291,7 +335,7 @@ class OpEval:
         return self.vec[h[0]][int(h[1:])]
 
     def leaf_type(self, h):
-        if self.form in ("cond", "condself", "condsame") and h[0] == "a": return "bool"
+        if self.form in ("cond", "cond2", "condself", "condsame") and h[0] == "a": return "bool"
         if self.form == "condb" and h == "sa": return "bool"
         return self.sT
 
@@ -392,7 +436,7 @@ class LuGen:
         r = self.rng
         lanes = [self.lane_matrix(n, f) for f in fams]
         vals = [dbits(lanes[l][i][j]) for i in range(n) for j in range(n) for l in range(S)]
-        if kind in ("solve", "mv", "prods"):
+        if kind in ("solve", "mv", "prods", "solvealias"):
             vals += [dbits(float(r.randint(-5, 5)) if r.random() < 0.7 else r.uniform(-3, 3)) for _ in range(n * S)]
         return "%s %s %d %d %d %s" % (prefix, kind, n, S, 1 if piv else 0, " ".join(vals))
 
@@ -479,6 +523,11 @@ class LuGen:
                     for _ in range(max(2, N // 5)):
                         cases.append(self.case("lu", kind, n, S, True, [r.choice(["int", "rand", "special", "graded"]) for _ in range(S)]))
             cases.append("lu traits 0 %d 0 simd %d 0 scalar double" % (S, S))
+            # aliasing x == b in solve (lanes must still agree with the scalar call made the same way)
+            for n in (2, 3, 4, 5):
+                for _ in range(2 if self.quick else 10):
+                    cases.append(self.case(r.choice(["lu", "dlu"]), "solvealias", n, S, True, [r.choice(["plu", "int", "graded", "zerocol"]) for _ in range(S)]))
+            # (0 x 0: DynamicMatrix::mat_cols() asserts rows() != 0 and FieldMatrix<K,0,0> has no LU: outside the domain, not generated)
             cases += self.nanpos_cases("lu", S, (2, 4) if self.quick else (1, 2, 3, 4, 5))
         return cases + self.gen_tagged()
 
@@ -535,8 +584,13 @@ def lu_oracle(case, impl):
         return ("C09:%s:no-result" % kind, "expected %d scalar results" % S)
     if "modified" in simd:
         return ("C09:%s:operand-modified" % kind, "inputs changed by the call")
+    mflag = re.search(r"\((second call differs|default argument differs|copy of the result differs|differs after an intermediate solve)\)|INCONSISTENT \(([^)]*)\)", impl)
+    if mflag:
+        return ("C09:%s:history" % kind, "object history / default argument: %s" % (mflag.group(1) or mflag.group(2)))
+    if simd == "-":                      # 0 x 0: nothing to return
+        return None if all(x == "-" for x in scal) else ("C09:%s:lane-mismatch" % kind, "empty S-lane result, scalar results %s" % scal[:3])
     if any(s.startswith("EXC") for s in scal) or simd.startswith("EXC"):
-        if kind in ("solve", "invert"):
+        if kind in ("solve", "invert", "solvealias"):
             anyexc = any(s.startswith("EXC FMatrixError") for s in scal)
             if anyexc and simd.startswith("EXC FMatrixError"): return None
             if anyexc != simd.startswith("EXC FMatrixError"):
@@ -593,8 +647,9 @@ def build(ctx, Slist):
     ctx.nested_sv = probe_nested_sv(ctx)
     jobs = []
     for S in [0] + Slist:
-        jobs.append(dict(srcs=[os.path.join(H, "ops.cc")], out=ctx.path("ops%d" % S), repo_srcs=[],
-                         flags=fl + ["-DC09_LANES=%d" % S] + (["-DC09_NESTED_SV_LOGIC=1"] if ctx.nested_sv else [])))
+        for grp in (0, 1):                  # two translation units per lane count: the original eight scalar types | the further ones
+            jobs.append(dict(srcs=[os.path.join(H, "ops.cc")], out=ctx.path("ops%d" % S + ("" if grp == 0 else "g1")), repo_srcs=[],
+                             flags=fl + ["-DC09_LANES=%d" % S, "-DC09_TYPEGROUP=%d" % grp] + (["-DC09_NESTED_SV_LOGIC=1"] if ctx.nested_sv else [])))
     for S in Slist:
         jobs.append(dict(srcs=[os.path.join(H, "lu.cc")], out=ctx.path("lu%d" % S), flags=fl + ["-DC09_LANES=%d" % S]))
     if Slist:
@@ -631,11 +686,15 @@ def run_ops(ctx, model, Slist, cases, tag="ops"):
     for i, c in enumerate(cases):
         t = c.split(); S, m = int(t[2]), int(t[3])
         key = 0 if (m > 1 or t[1] == "adouble") else S
-        groups.setdefault(key, []).append(i)
-    sout = V.run_cases(ctx, [ctx.path("ops0")], scases, tag=tag + "-scalar", timeout=300) if scases else []
-    table = dict(zip(need, sout))
+        groups.setdefault("%d%s" % (key, "g1" if (t[1] in GROUP1 and m == 1) else ""), []).append(i)
+    table = {}
+    for grp, sfx in ((False, ""), (True, "g1")):
+        sel = [(k, c) for k, c in zip(need, scases) if (k[0] in GROUP1) == grp]
+        if sel:
+            sout = V.run_cases(ctx, [ctx.path("ops0" + sfx)], [c for _, c in sel], tag=tag + "-scalar" + sfx, timeout=600)
+            table.update(dict(zip([k for k, _ in sel], sout)))
     for key, idx in groups.items():
-        out = V.run_cases(ctx, [ctx.path("ops%d" % key)], [cases[i] for i in idx], tag="%s-impl%d" % (tag, key), timeout=300)
+        out = V.run_cases(ctx, [ctx.path("ops" + key)], [cases[i] for i in idx], tag="%s-impl%s" % (tag, key), timeout=600)
         for i, o in zip(idx, out): impl[i] = o
     expected = []
     for c, e in zip(cases, evs):
@@ -643,7 +702,8 @@ def run_ops(ctx, model, Slist, cases, tag="ops"):
             expected.append("%d %d" % (e.S * e.m, e.S * e.m)); continue
         if e.form == "traits":
             expected.append(plans[len(expected)]); continue
-        expected.append(" ; ".join(" ".join(e.ev(tm, table) for tm in vec) for vec in e.terms))
+        ex = " ; ".join(" ".join(e.ev(tm, table) for tm in vec) for vec in e.terms)
+        expected.append(ex + " ; " + ex if e.form == "vsu" else ex)       # vsu: scalar count and vector of counts of another type, same lanes
     return impl, expected, plans, len(scases)
 
 
@@ -810,7 +870,7 @@ def run(ctx):
     build(ctx, Slist)
     # ---------------- operator table
     g = OpGen(ctx)
-    for T in ["int", "unsigned", "long", "short", "char", "bool", "float", "double"]:
+    for T in ["int", "unsigned", "long", "short", "char", "bool", "float", "double", "ulong", "llong", "ushort", "uchar", "schar", "cdouble"]:
         g.gen_type(T, Slist)
     g.gen_type("double", [3], m=2)       # LoopSIMD<LoopSIMD<double,2>,3>
     g.gen_type("int", [3], m=2)
@@ -849,7 +909,7 @@ def run(ctx):
             if o != limpl[i]:
                 ctx.violation("C09:%s:sanitizer" % lcases[i].split()[1], {"case": lcases[i], "impl": limpl[i], "impl_sanitized_build": o,
                                                                           "oracle": "ASan/UBSan build behaves differently or aborts"})
-        osub = [i for i, c in enumerate(ocases) if c.split()[2] == str(S) and c.split()[3] == "1" and c.split()[1] != "adouble"]
+        osub = [i for i, c in enumerate(ocases) if c.split()[2] == str(S) and c.split()[3] == "1" and c.split()[1] != "adouble" and c.split()[1] not in GROUP1]
         oo = V.run_cases(ctx, [ctx.path("ops_san")], [ocases[i] for i in osub], tag="ops-san", timeout=900)
         for i, o in zip(osub, oo):
             if o != impl[i]:
